@@ -5,12 +5,16 @@
 (*                                                                         *)
 (* A response script is a record                                           *)
 (*   [status, reason, ver, fields, framing, bodyLen, chunks, hexUpper,     *)
-(*    chunkExt, bodyLit, trailers, interim, connClose, connStyle,          *)
+(*    chunkExt, bodyLit, trailers, interim, interimFields, connClose,      *)
+(*    connStyle,                                                           *)
 (*    keepAlive, clStyle, head, pad, i, padI]                              *)
 (* framing: "cl" (Content-Length) | "chunked" | "close" (read until the    *)
 (* peer closes) | "none" (no framing header: bodiless status).  head =     *)
 (* TRUE: the response answers a HEAD request (framing headers present,     *)
-(* body omitted).  interim: a "100 Continue" precedes the final response.  *)
+(* body omitted).  interim: a "100 Continue" precedes the final response;  *)
+(* interimFields: header fields carried by that interim response (they     *)
+(* belong to the interim response only: ExpectedResponse does not mention  *)
+(* them, whatever their names).                                            *)
 (* connClose: value of a Connection header announcing close ("" = none;    *)
 (* "close", "Close", "foo, close": connection options are a case-          *)
 (* insensitive list, RFC 7230 6.1).  pad > 0: a header X-Pad whose value   *)
@@ -35,6 +39,7 @@ RForms(lname) ==
       [] lname = "server" -> [canon |-> "Server", lower |-> "server", upper |-> "SERVER", mixed |-> "sErVeR"]
       [] lname = "set-cookie" -> [canon |-> "Set-Cookie", lower |-> "set-cookie", upper |-> "SET-COOKIE", mixed |-> "set-Cookie"]
       [] lname = "x-t" -> [canon |-> "X-T", lower |-> "x-t", upper |-> "X-T", mixed |-> "x-T"]
+      [] lname = "x-interim" -> [canon |-> "X-Interim", lower |-> "x-interim", upper |-> "X-INTERIM", mixed |-> "x-inTerim"]
       \* near-miss framing names: ordinary fields that must not influence the framing of the response
       [] lname = "content-lengths" -> [canon |-> "Content-Lengths", lower |-> "content-lengths", upper |-> "CONTENT-LENGTHS", mixed |-> "Content-lengths"]
       [] lname = "x-content-length" -> [canon |-> "X-Content-Length", lower |-> "x-content-length", upper |-> "X-CONTENT-LENGTH", mixed |-> "X-content-Length"]
@@ -69,7 +74,9 @@ RTrailerNames(s) == JoinWith([k \in 1 .. Len(s.trailers) |-> s.trailers[k].name]
 
 \* the head up to (excluding) the pad value, and from the pad value on
 RHeadA(s) ==
-    (IF s.interim THEN "HTTP/1.1 100 Continue" \o CRLF \o CRLF ELSE "")
+    (IF s.interim THEN "HTTP/1.1 100 Continue" \o CRLF
+                       \o ConcatStr([k \in 1 .. Len(s.interimFields) |-> RFieldLine(s.interimFields[k])]) \o CRLF
+     ELSE "")
     \o "HTTP/" \o s.ver \o " " \o ToDec(s.status) \o (IF s.reason # "" THEN " " \o s.reason ELSE "") \o CRLF
     \o ConcatStr([k \in 1 .. Len(s.fields) |-> RFieldLine(s.fields[k])])
     \o (IF s.pad > 0 THEN "X-Pad: " ELSE "")
@@ -108,6 +115,7 @@ WellFormedResp(s) ==
     /\ s.bodyLit = ""
     /\ ~(s.connClose # "" /\ s.keepAlive)
     /\ s.status >= 200
+    /\ s.interimFields # << >> => s.interim
 
 \* the connection ends with this response: announced by the header, implied by the framing, or by HTTP/1.0
 \* without keep-alive.  A conforming peer closes after it; the client must not use the connection again.
